@@ -17,6 +17,7 @@ import ast
 import os
 
 from .. import translate
+from . import normalize
 
 REL = "fairlearn/adversarial/_pytorch_engine.py"
 PLAYERS = {"self.predictor_model": "predictor", "self.adversary_model": "adversary"}
@@ -50,7 +51,7 @@ def _deps_of(node, deps):
 
 def lift(repo):
     with open(os.path.join(repo, REL)) as f:
-        tree = ast.parse(f.read())
+        tree = normalize.parse(f.read())
     fn = None
     for c in tree.body:
         if isinstance(c, ast.ClassDef) and c.name == "PytorchEngine":
@@ -219,7 +220,7 @@ def lift_pass_y(repo):
     """`if self.constraints == 'demographic_parity': self.pass_y_ = False elif ... == 'equalized_odds': self.pass_y_ = True else: raise`"""
     rel = "fairlearn/adversarial/_adversarial_mitigation.py"
     with open(os.path.join(repo, rel)) as f:
-        tree = ast.parse(f.read())
+        tree = normalize.parse(f.read())
     writes = [n for n in ast.walk(tree) if isinstance(n, ast.Assign) and _src(n.targets[0]) == "self.pass_y_"]
     chain = [n for n in ast.walk(tree) if isinstance(n, ast.If) and isinstance(n.test, ast.Compare) and _src(n.test.left) == "self.constraints"
              and any(w in n.body for w in writes)]
@@ -247,7 +248,7 @@ def lift_pass_y(repo):
 def lift_adv_width(repo):
     rel = "fairlearn/adversarial/_backend_engine.py"
     with open(os.path.join(repo, rel)) as f:
-        tree = ast.parse(f.read())
+        tree = normalize.parse(f.read())
     calls = [n for n in ast.walk(tree) if isinstance(n, ast.Call) and _src(n.func) == "self.__init_model__" and len(n.args) == 5
              and _src(n.args[4]) == "'adversary'"]
     if len(calls) != 1:
